@@ -296,3 +296,92 @@ def r_bitfield_unit_inside(P, rep, rule):
                    'access to the field reach %d byte(s) beyond the object (into the neighbouring object; a fault at the end of a mapping): `struct __attribute__((packed)) { char c; int f:3; }`'
                    % ((bad[0], 'packed' if packed else 'not packed', bad[2], bad[1], bad[3], bad[4], bad[5], bad[3] + bad[4] - bad[5]) if bad else ('', '', 0, '', 0, 0, 0, 0)),
                    where=where, facts={'case': cname})
+
+
+# ------------------------------------------------------------------------------------------------
+# R04.27 the width of a bit-field is one the layout and the accessors are sound for
+# ------------------------------------------------------------------------------------------------
+WIDTH_TYPES = (('char', 'TY_CHAR', 1, 0), ('unsigned int', 'TY_INT', 4, 1), ('long', 'TY_LONG', 8, 0))
+
+
+def _width_cases(bits):
+    """(width, named, class): the classes of C11 6.7.2.1p4"""
+    return ((-1, True, 'negative'), (0, True, 'named-zero'), (bits + 1, True, 'above-type'), (bits + 8, False, 'above-type'),
+            (0, False, 'valid'), (1, True, 'valid'), (bits, True, 'valid'))
+
+
+def r_bitfield_width(P, rep, rule):
+    """struct_members() is evaluated on one member declaration `T name : w` / `T : w` with a concrete declared type and a concrete width (declspec,
+    declarator and const_expr cut by contract, the token predicates opaque): whether any path on which the width was read returns normally
+    (the member reaches the layout with that width) or all of them end in a diagnostic."""
+    from .interp import Interp, Obj
+    from .interp import _Ref, _ValPlace
+    pu = P.unit('parse.c')
+    fn = 'struct_members'
+    K = 'parse.c:%s:bitfield-width/' % fn
+    if fn not in pu.functions:
+        rep.undecided(rule, K + 'evaluation', 'struct_members vanished'); return
+    where = 'parse.c:%d' % pu.fn(fn).line
+    E = pu.enums
+    OPQ = ['equal', 'consume', 'skip', 'get_ident', 'array_of', 'attribute_list']
+    verdicts = {}          # class -> [(doc, accepted)]
+    und = []
+    cur = {}
+
+    def cut_declspec(it, ctx, call, args):
+        return Obj('Type', lazy=True, label='basety')
+
+    def cut_declarator(it, ctx, call, args):
+        t = Obj('Type', lazy=False, label='fieldty')
+        t.fields.update({'kind': E[cur['kind']], 'size': cur['sz'], 'align': cur['sz'], 'base': 0, 'is_unsigned': cur['uns'], 'is_atomic': 0, 'members': 0, 'array_len': 0, 'vla_len': 0,
+                         'vla_size': 0, 'origin': 0, 'is_packed': 0, 'is_flexible': 0, 'name_pos': Obj('Token', lazy=True, label='name-pos'),
+                         'name': Obj('Token', lazy=True, label='name') if cur['named'] else 0})
+        return t
+
+    def cut_const_expr(it, ctx, call, args):
+        ctx.events.append(('bf-width', cur['w']))
+        return cur['w']
+    try:
+        it = Interp(P, pu, {'opaque': OPQ, 'cut': {'declspec': cut_declspec, 'declarator': cut_declarator, 'const_expr': cut_const_expr}, 'loop_limit': 1, 'track_stores': False})
+    except AnalysisBroken as ex:
+        rep.undecided(rule, K + 'evaluation', 'struct_members not interpretable: %s' % ex, where=where); return
+    for tname, kind, sz, uns in WIDTH_TYPES:
+        if kind not in E:
+            und.append('enumerator %s vanished' % kind); continue
+        for w, named, cls in _width_cases(sz * 8):
+            doc = '`%s %s:%d;`' % (tname, 'f' if named else '', w)
+            cur.update(kind=kind, sz=sz, uns=uns, named=named, w=w)
+            try:
+                paths = it.explore(fn, lambda ctx: [_Ref(_ValPlace(0)), Obj('Token', lazy=True, label='tok'), Obj('Type', lazy=True, label='ty')], max_paths=2000)
+                acc = dia = 0
+                for ctx, out in paths:
+                    if not any(e[0] == 'bf-width' for e in ctx.events):
+                        continue
+                    if out[0] == 'ret':
+                        acc += 1
+                    elif out[0] == 'noreturn':
+                        dia += 1
+            except AnalysisBroken as ex:
+                und.append('struct_members not interpretable on %s: %s' % (doc, ex)); continue
+            if not acc and not dia:
+                und.append('no path of struct_members reads the width of %s' % doc); continue
+            verdicts.setdefault(cls, []).append((doc, acc > 0))
+    if und:
+        rep.undecided(rule, K + 'evaluation', '; '.join(und[:3]), where=where)
+    TXT = {'negative': ('negative-rejected', 'a negative width is accepted (%s): the layout step adds the width to its running bit position, so the position moves BACKWARDS and the members that follow '
+                        'are placed over the ones before - `struct { int x; int f:-32; int y; }` puts y on x'),
+           'named-zero': ('named-zero-rejected', 'a named member of width zero is accepted (%s): the layout treats it as the unnamed alignment marker, but the name can be used - the accessors shift by '
+                          '64 - 0 = 64 (undefined in the generated code) on a unit that belongs to the next member'),
+           'above-type': ('above-type-rejected', 'a width above the bits of the declared type is accepted (%s): the accessors load and store exactly one unit of the declared type (R04.1/R04.2), so the field '
+                          'holds fewer bits than declared, the read-back shifts (64 - w - o, 64 - w) run over extension bits instead of object bits, and the layout reserves bits that no access reaches; '
+                          'gcc and clang: "width of bit-field exceeds its type"')}
+    for cls, (name, msg) in TXT.items():
+        vs = verdicts.get(cls)
+        if not vs:
+            continue
+        bad = [d for d, a in vs if a]
+        rep.ob(rule, K + name, not bad, msg % ', '.join(bad[:4]) + ' (C11 6.7.2.1p4 is a constraint: a diagnostic is required)', where=where, facts={'cases': vs})
+    vs = verdicts.get('valid')
+    if vs:
+        bad = [d for d, a in vs if not a]
+        rep.ob(rule, K + 'valid-accepted', not bad, 'a valid bit-field declaration is diagnosed on every path: %s' % ', '.join(bad[:4]), where=where, facts={'cases': vs})
